@@ -339,7 +339,7 @@ lemma("lemmas_range_interval.rs", ["C02", "C07", "C11"])
 lemma("lemmas_range_bridge.rs", ["C02", "C06", "C11"])
 lemma("lemmas_seal.rs", ["C11", "C02"])
 lemma("lemmas_chain.rs", ["C13"])
-kani("range::guard_u8_u16", ["C08", "C18", "C02"], timeout=900, fns=[Q + "EncoderGuard::{new,drop}", Q + "RangeEncoder::{seal,unseal,num_seal_words,num_words,get_compressed}"],
+kani("range::guard_u8_u16", ["C08", "C18", "C02", "C06"], timeout=900, fns=[Q + "EncoderGuard::{new,drop}", Q + "RangeEncoder::{seal,unseal,num_seal_words,num_words,get_compressed}"],
      text="view == into_compressed() of a twin (all situations, n_inv<=2, pre-filled sink); drop restores bulk/state/situation")
 kani("models::float_view_uniform_u16_p12", ["C18"], fns=[M + "model.rs::EncoderModel::floating_point_probability"],
      text="floating_point_probability * 2^P == probability exactly; 0 outside the support")
